@@ -143,12 +143,16 @@ def x_hist(ctx, case):
         elif kind == "rule":
             _, name, policy, arg, consume, dssr = op
             n_rules += 1
+            # (arguments left at their defaults when they have the default's value: do_start_stop_run=False,
+            # consume_route=False)
+            kw = {} if (not dssr and n_rules % 2) else {"do_start_stop_run": dssr}
             if policy == "prefix":
-                router.add_rule(sink(name), "route_code_prefix", route_prefix=arg,
-                                consume_route=consume, do_start_stop_run=dssr)
+                if consume or n_rules % 3:
+                    kw["consume_route"] = consume
+                router.add_rule(sink(name), "route_code_prefix", route_prefix=arg, **kw)
                 prefixes[arg] = (name, consume)
             else:
-                router.add_rule(sink(name), "test_id", test_id=arg, do_start_stop_run=dssr)
+                router.add_rule(sink(name), "test_id", test_id=arg, **kw)
                 test_ids[arg] = name
             if dssr:
                 registered.append(name)
